@@ -22,7 +22,7 @@ RULE = ("consistent sequences of 1-3 positions (20% subsequences), 1-3 channels 
 def case(g, tier, ci):
     r = g.r
     sg = SeqGen(g)
-    SR = r.choice([100, 10, 1e3, 1e6, 1e9])
+    SR = r.choice([100, 10, 1e3, 1e6, 1e9, 1.2e9, 2.4e9, 3e9])
     seqx = r.random() < 0.1
     ops, info = sg.sequence("s", npos=(1, 3), nch=(1, 3), SR=SR, N=(r.randint(2400, 2410) if seqx else None), raw_p=0.3,
                             kinds=("ramp", "sine") if not seqx else ("ramp",), flags_p=0.1, delays_p=0.4, filters_p=0.6,
